@@ -1,5 +1,6 @@
 import MdwModel.Driver.C16
 import MdwModel.Driver.C09
+import MdwModel.Driver.C13
 import MdwModel.Model.Records
 import Std.Data.HashMap
 open Mdw.Drv
@@ -17,6 +18,7 @@ def dispatch (prop : String) (kv : List (String × String)) : Res :=
   match prop with
   | "C16" => C16.run kv
   | "C09" => C09.run kv
+  | "C13" => C13.run kv
   | "C10" => C09.run10 kv
   | "SIZES" =>
     match (get kv "sizes").bind natList with
